@@ -201,12 +201,22 @@ def _run_program(ctx, prog, rng, pidx):
             inner_prog = dict(gen_c18_program(prog['gen_seed'] + 7), uid=prog['uid'] + 500000, params={'skipped': True}, with_inner_operation=False)
             inner_prog['body'] = [st for st in inner_prog['body'] if st['op'] != 'inner_op']
             prog['_inner_built'] = Built(inner_prog, rec, World(inner_prog['seed_world'], raise_rate=0.0))
+        run_no = [0]
         for faults in placements:
             for extractor in ([rng.choice(EXTRACTORS)] if ctx.quick and len(placements) > 12 else EXTRACTORS):
                 bk = extractor is not None
                 # the operation is called from ordinary code, or from a compensating path (except / finally block) of its caller
                 cc = rng.choice(fr.CALLER_CONTEXTS) if rng.random() < 0.5 else 'plain'
                 ctx.count('called_from_' + cc)
+                run_no[0] += 1
+                main_pos = [pos for pos, op, dn in trace if pos[0] == 'main']
+                if run_no[0] % 6 == 2 and main_pos:
+                    # the request served just before on this recorder discarded its recording in mid-operation and then completed
+                    # normally: nothing of it is saved, and the metadata of the NEXT run tells the truth about the next run
+                    pre = fr.execute(prog, {main_pos[len(main_pos) // 2]: 'discard'}, extractor=extractor, recorder=rec, spy=spy, box=box, with_twin=False,
+                                     built=builts.get(bk), cls_name='GenOp%d%s' % (prog['uid'], 'X' if bk else 'N'))
+                    builts[bk] = pre.live
+                    ctx.count('runs_right_after_a_run_that_discarded_its_recording')
                 res = fr.execute(prog, faults, extractor=extractor, recorder=rec, spy=spy, box=box, with_twin=False, built=builts.get(bk),
                                  cls_name='GenOp%d%s' % (prog['uid'], 'X' if bk else 'N'), caller_context=cc)
                 builts[bk] = res.live
